@@ -309,6 +309,8 @@ class C03(C20):
             gc.collect()
             if impl.bound_variables():
                 return ('variables-still-bound:rerun', 'variables bound after the re-run was closed')
+        except impl.ImplWork:
+            return {'classes': {'too-expensive(term-copying work budget)'}, 'nontrivial': False}
         except impl.ImplBudget:
             return ('impl-does-not-terminate', 'step budget')
         except RecursionError as e:
